@@ -210,11 +210,11 @@ theorem stuck_class {s : CSh} {t : CTh} (hs : step s t = []) (hti : TInv s t) :
   | lockC x => simp [hc] at hs
   | rlockC xs => simp only [hc] at hs; split at hs <;> simp at hs
   | unlockC x => simp only [hc] at hs; split at hs <;> simp at hs
-  | runlockC xs =>
-    simp only [hc] at hs
-    split at hs
-    · simp at hs
-    · split at hs <;> simp at hs
+  | runlockC xs => simp only [hc] at hs; split at hs <;> simp at hs
+  | unregA x => exact ⟨by simp [fDm, hc], fun hd => by simp [hc, hd] at hs⟩
+  | runregA xs => exact ⟨by simp [fDm, hc], fun hd => by simp [hc, hd] at hs⟩
+  | unregC x => simp only [hc] at hs; split at hs <;> simp at hs
+  | runregC xs => simp only [hc] at hs; split at hs <;> simp at hs
   | inner k =>
     refine ⟨by simp [fDm, hc], fun _ => Or.inr ⟨k, rfl, ?_⟩⟩
     simp only [hc] at hs
